@@ -1,7 +1,7 @@
 (* Proofs/OutputMain.v — exit status, usage-error classes, syntax-error violations, format dispatch,
    and the agreement of the three renderings (C06). *)
 From TL Require Import Lib.Base Model.OutputTypes Gen.OutputGen Model.Output
-     Proofs.OutputStr Proofs.OutputJson Proofs.OutputText.
+     Proofs.OutputStr Proofs.OutputJson Proofs.OutputText Proofs.OutputSan.
 From Coq Require Import ZArith Lia.
 Local Open Scope Z_scope.
 Local Open Scope string_scope.
@@ -145,3 +145,59 @@ Proof.
   - intros Hz. apply H1 in Hz. now destruct vs.
   - intros Hm. apply H1. destruct vs; [now contradiction Hm|discriminate].
 Qed.
+
+(* every vector: one run, three renderings, one list - on the inputs whose text layout (as chosen by the vector) is decodable *)
+Theorem renderings_agree_any q ver vs :
+  forallb (text_ok q) vs = true ->
+  decode_json (render_json vs) = Some (map san_core vs, Z.of_nat (List.length (map san_core vs)))
+  /\ decode_sarif (render_sarif q ver vs) = Some (map san_core vs)
+  /\ parse_text q (text_output q vs) = Some (map san_core vs).
+Proof.
+  intros Ht. repeat split.
+  - rewrite json_roundtrip. now rewrite map_length.
+  - apply sarif_roundtrip_exact.
+  - now apply text_roundtrip_any.
+Qed.
+
+(* what the renderings show is the violation itself exactly when its path and message are well-formed UTF-8 *)
+Theorem san_core_identity_iff v :
+  san_core v = core_of v <-> utf8_valid (v_file v) = true /\ utf8_valid (v_msg v) = true.
+Proof.
+  unfold san_core, core_of. split.
+  - intros [= Hf Hm]. split; now apply sanitize_fixpoint_iff.
+  - intros [Hf Hm]. now rewrite (sanitize_valid_id _ Hf), (sanitize_valid_id _ Hm).
+Qed.
+
+(* the newline condition of text_ok can be read off the raw strings *)
+Theorem text_newline_condition_raw v :
+  no_nl (sanitize (v_file v)) && no_nl (sanitize (v_msg v)) = no_nl (v_file v) && no_nl (v_msg v).
+Proof. now rewrite !sanitize_no_nl. Qed.
+
+(* ---------- a rule that fails while a file is linted must not end the run ---------- *)
+Theorem run_performed q files : q_valueerror_aborts_run q = false -> run_outcome q files = OPerformed.
+Proof.
+  intros H. unfold run_outcome, rule_failure_aborts. rewrite H.
+  induction files as [|f r IH]; [reflexivity|]. cbn [existsb]. rewrite andb_false_r. exact IH.
+Qed.
+
+(* the policy found in the source: the run is performed whenever no file is one whose records the storage cannot hold *)
+Theorem run_performed_partial q files : existsb storage_raises files = false -> run_outcome q files = OPerformed.
+Proof.
+  intros H. unfold run_outcome.
+  assert (E : existsb (fun f => storage_raises f && rule_failure_aborts q EUnicodeEncode) files = false).
+  { induction files as [|f r IH]; [reflexivity|]. cbn [existsb] in *. apply orb_false_iff in H as [H1 H2].
+    now rewrite H1, (IH H2). }
+  now rewrite E.
+Qed.
+
+(* the decodable domain of the text layout is a property of the violation itself (raw path / message), not of its sanitised image *)
+Definition text_ok_raw (q : oquirks) (v : viol) : bool :=
+  rule_ok (v_rule v)
+  && (if q_text_raw_newline q then no_nl (v_file v) && no_nl (v_msg v) else true)
+  && (if q_text_omit_zero q
+      then ((0 <=? v_line v) && (0 <=? v_col v) && ((1 <=? v_line v) || (v_col v =? 0)))%Z
+           && (((1 <=? v_line v) && (1 <=? v_col v))%Z || path_tail_ok (v_file v))
+      else true).
+
+Theorem text_ok_is_raw q v : text_ok q v = text_ok_raw q v.
+Proof. unfold text_ok, text_ok_raw. now rewrite !sanitize_no_nl, path_tail_ok_sanitize. Qed.
